@@ -122,7 +122,11 @@ func (m *MMap) remap(newBase int64, dataSize int) error {
 	m.endOff = ((newBase + int64(dataSize) + blockSize - 1) / blockSize) * blockSize
 
 	// 如果新映射区域超过设置的文件大小, 则进行调整
-	if info, _ := m.file.Stat(); info.Size() < m.endOff {
+	info, err := m.file.Stat()
+	if err != nil {
+		return fmt.Errorf("stat failed: %v", err)
+	}
+	if info.Size() < m.endOff {
 		if err := m.file.Truncate(m.endOff); err != nil {
 			return fmt.Errorf("truncate failed: %v", err)
 		}
